@@ -597,6 +597,25 @@ func Run(out string) {
 		{},
 		{{ref: -1, beg: -1, end: 0, placed: false, mapped: false}},
 	}
+	// references all of whose records share one bin although whole tiles between them are touched by
+	// no record: the records straddle child boundaries of one window at level 4, 3 or 2
+	for _, w := range []int{8 << 14, 64 << 14, 512 << 14} {
+		for _, ks := range [][]int{{1, 4, 7}, {2, 3, 6}, {1, 7}, {5}} {
+			for _, other := range []int{-1, 0, 2} { // another reference (before / after) with ordinary records, or none
+				var f []rec
+				if other == 0 {
+					f = append(f, rec{ref: 0, beg: 10, end: 20, placed: true, mapped: true}, rec{ref: 0, beg: 40000, end: 40100, placed: true, mapped: true})
+				}
+				for _, k := range ks {
+					f = append(f, rec{ref: 1, beg: k*(w/8) - 100, end: k*(w/8) + 100, placed: true, mapped: k != 4})
+				}
+				if other == 2 {
+					f = append(f, rec{ref: 2, beg: 0, end: 100000, placed: true, mapped: true})
+				}
+				fixed = append(fixed, f)
+			}
+		}
+	}
 	for _, kind := range []string{"bai", "tabix", "csi"} {
 		for _, f := range fixed {
 			recs := append([]rec(nil), f...)
